@@ -65,6 +65,9 @@ def inventory(j):
         if not a.get('local'):
             continue
         adts[path] = {'kind': a['kind'], 'variants': [[v['name'], [[fl['name'], fl['ty']] for fl in v['fields']]] for v in a['variants']]}
+        if all(str(fl.get('vis', '')).startswith('Restricted') for v in a['variants'] for fl in v['fields']) and \
+                not any(strip_generics(v_['self_adt'] or '') == path for v_ in fns.values()):
+            adts[path]['private_data'] = True       # (no pub field, no impl of any kind: plain data local to the crate)
     return {'fns': fns, 'adts': adts}
 
 
@@ -184,10 +187,35 @@ def detect(base, cur_inv, cur_txt):
                         log.append('field %s of %s was renamed to %s (same position, same type; applied to field uses of this type only)' % (bn, op, cn))
                     else:
                         accept([(cn, bn)], 'field of %s at the same position with the same type' % op)
-    # 3. functions: missing vs new; same kind / impl / signature, unique best callee overlap
+    # 2b. a new private plain-data struct that gives names to the slots of a tuple the reference tree passes around: accepted only if
+    #     the tuple of its field types occurs in the reference signature of a function that is missing or whose signature changed,
+    #     and substituting it makes such a signature equal to the reference one (decided in step 3: `tuples` is only used there
+    #     if it makes a signature match)
     rl = list(ren.items())
     b_fns = base['fns']
-    norm = lambda t_: _sub(_subpaths(t_, paths), rl)  # noqa: E731
+    tuples = []
+    matched_new = set(n_ for n_, _ in paths)
+    for p_, a_ in cur_inv['adts'].items():
+        if p_ in b_adts or p_ in matched_new or a_['kind'] != 'struct' or len(a_['variants']) != 1 or len(a_['variants'][0][1]) < 2:
+            continue
+        if any(s_ in ren for s_ in p_.split('::')) or not a_.get('private_data'):
+            continue
+        fts = [_sub(_subpaths(t_, paths), rl) for _, t_ in a_['variants'][0][1]]
+        tup = '(' + ', '.join(fts) + ')'
+        if any(_nolt(tup) in _nolt(v_['sig']) for v_ in b_fns.values()):
+            tuples.append((p_, [f_ for f_, _ in a_['variants'][0][1]], tup))
+    # 3. functions: missing vs new; same kind / impl / signature, unique best callee overlap
+    used_tuples = set()
+
+    def norm(t_):
+        t_ = _sub(_subpaths(t_, paths), rl)
+        for p_, _, tup_ in tuples:
+            if p_ in t_:
+                t2_ = _subtuple(t_, p_, tup_)
+                if t2_ != t_:
+                    used_tuples.add(p_)
+                    t_ = t2_
+        return t_
     c_fns = {norm(d): dict(v, sig=norm(v['sig']), self_adt=norm(v['self_adt'] or '') or None, trait=(norm(v['trait']) if v.get('trait') else v.get('trait')), callees=[norm(c) for c in v['callees']]) for d, v in cur_inv['fns'].items()}
     missing = [d for d in b_fns if d not in c_fns]
     new = [d for d in c_fns if d not in b_fns]
@@ -206,19 +234,115 @@ def detect(base, cur_inv, cur_txt):
                     continue
                 sr = []       # same name at another depth of the module tree: a move, mapped by full path below
             sig_n = _sub(cn['sig'], sr) if cn['kind'] == bm['kind'] else cn['sig']
-            if sig_n != bm['sig']:
+            if sig_n != bm['sig'] and not (tuples and _nolt(sig_n) == _nolt(bm['sig'])):
                 continue
             a, b = set(bm['callees']), set(_sub(c, sr) for c in cn['callees'])
             j = len(a & b) / float(len(a | b)) if (a | b) else 1.0
             cands.append((j, n, sr))
         cands.sort(reverse=True)
+        if len(cands) == 1 and cands[0][0] < 0.5 and cands[0][2]:
+            # rewritten body under a new name: accepted when the signature and impl single it out on both sides and a caller of the
+            # reference function now calls the new one instead
+            n1 = cands[0][1]
+            same_m = [m_ for m_ in missing if b_fns[m_]['sig'] == bm['sig'] and (b_fns[m_]['self_adt'] or None) == (bm['self_adt'] or None) and b_fns[m_]['kind'] == bm['kind']]
+            lm_, ln_ = segs(m)[-1], segs(n1)[-1]      # (the inventory lists callees by their last path segment)
+            callers_b = set(d_ for d_, v_ in b_fns.items() if lm_ in v_['callees'])
+            callers_c = set(d_ for d_, v_ in c_fns.items() if ln_ in v_['callees'])
+            still_m = set(d_ for d_, v_ in c_fns.items() if lm_ in v_['callees'])
+            if len(same_m) == 1 and (callers_b & callers_c) and not still_m and (c_fns[n1]['self_adt'] or None) == (bm['self_adt'] or None):
+                cands[0] = (0.5, n1, cands[0][2])
+                log.append('%s: body rewritten under a new name %s (only function of its impl with this signature on both sides; called from %s)' % (m, n1, sorted(callers_b & callers_c)[:2]))
         if cands and cands[0][0] >= 0.5 and (len(cands) == 1 or cands[0][0] - cands[1][0] >= 0.2):
             same_last = segs(cands[0][1])[-1:] == segs(m)[-1:]
             if same_last or not accept(cands[0][2], 'function %s has the signature, impl and callees of %s' % (cands[0][1], m)):
                 if same_last:
                     paths.append((cands[0][1], m))
                     log.append('%s moved to %s (same name, signature and callees; the full path is mapped back)' % (m, cands[0][1]))
-    return list(ren.items()), log, structured, paths
+    # 3b. a reference function that is still missing, in an impl where exactly one function went missing and exactly one appeared, with
+    #     the same number of parameters and the same return type (a parameter's type changed because a conversion step moved across
+    #     the call boundary): accepted when callers of the reference function now call the new one and nobody calls the old name
+    taken = set(n_ for n_, _ in paths) | set(ren.keys())
+    still_missing = [m for m in missing if not any(o_ == segs(m)[-1] for o_ in ren.values()) and not any(op_ == m for _, op_ in paths)]
+    for m in still_missing:
+        bm = b_fns[m]
+        if bm['kind'] != 'assoc' or bm.get('trait') or not bm.get('self_adt'):
+            continue
+        same_impl_m = [m_ for m_ in still_missing if b_fns[m_].get('self_adt') == bm['self_adt'] and not b_fns[m_].get('trait')]
+        same_impl_n = [n_ for n_ in new if c_fns[n_].get('self_adt') == bm['self_adt'] and not c_fns[n_].get('trait') and c_fns[n_]['kind'] == 'assoc'
+                       and segs(n_)[-1] not in taken and not any(segs(n_)[-1] == k_ for k_ in ren)]
+        if len(same_impl_m) != 1 or len(same_impl_n) != 1:
+            continue
+        n1 = same_impl_n[0]
+        sr = _seg_renames(m, n1)
+        if not sr or _sig_arity_ret(c_fns[n1]['sig']) != _sig_arity_ret(bm['sig']):
+            continue
+        lm_, ln_ = segs(m)[-1], segs(n1)[-1]
+        callers_b = set(d_ for d_, v_ in b_fns.items() if lm_ in v_['callees'])
+        callers_c = set(d_ for d_, v_ in c_fns.items() if ln_ in v_['callees'])
+        still_m = set(d_ for d_, v_ in c_fns.items() if lm_ in v_['callees'])
+        if callers_b and callers_b <= callers_c | set(_sub(d_, [(o_, n_) for n_, o_ in sr]) for d_ in callers_c) and not still_m:
+            accept(sr, 'function %s takes the place of %s: the only function of its impl that appeared while %s was the only one that went missing, same arity and return type, called from the same %d functions' % (n1, m, m, len(callers_b)))
+    # a named tuple is only accepted if, with it, every function of the reference tree that mentions the tuple still has a counterpart
+    # with exactly the reference signature (same path after renames)
+    ok_tuples = []
+    for p_, fs_, tup_ in tuples:
+        if p_ not in used_tuples:
+            continue
+        c_after = {_subpaths(d_, paths): v_ for d_, v_ in c_fns.items()}
+        back_ = {n_: o_ for n_, o_ in ren.items()}
+        users = [d_ for d_, v_ in b_fns.items() if _nolt(tup_) in _nolt(v_['sig'])]
+        good = True
+        for d_ in users:
+            cand = [v_ for k_, v_ in c_after.items() if '::'.join(back_.get(x_, x_) for x_ in k_.split('::')) == d_]
+            if not cand or _nolt(cand[0]['sig']) != _nolt(b_fns[d_]['sig']):
+                good = False
+        if good:
+            ok_tuples.append((p_, fs_, tup_))
+            log.append('struct %s (new, private, plain data) names the slots of the tuple %s of the reference tree: seen as that tuple' % (p_, tup_))
+        else:
+            log.append('not applied: struct %s as tuple %s: a reference function using the tuple has no counterpart with the reference signature' % (p_, tup_))
+    return list(ren.items()), log, structured, paths, ok_tuples
+
+
+def _sig_arity_ret(sig):
+    """(number of parameters, return type text) of a printed fn signature"""
+    i = sig.find('fn(')
+    if i < 0:
+        return None
+    depth, j, commas, nonempty = 0, i + 3, 0, False
+    while j < len(sig):
+        c = sig[j]
+        if c in '(<[':
+            depth += 1
+        elif c in ')>]' and not (c == '>' and sig[j - 1] == '-'):
+            if depth == 0:
+                break
+            depth -= 1
+        elif c == ',' and depth == 0:
+            commas += 1
+        elif not c.isspace():
+            nonempty = True
+        j += 1
+    rest = sig[j + 1:].strip()
+    return ((commas + 1) if nonempty else 0, _nolt(rest[2:].strip()) if rest.startswith('->') else '()')
+
+
+def _nolt(t):
+    """type text without lifetimes (named-tuple comparison: the struct's own lifetime parameter names need not be the tuple's)"""
+    t = re.sub(r"for<[^<>]*> ?", '', t)
+    t = re.sub(r"'[A-Za-z_][A-Za-z0-9_]*,? ?", '', t)
+    return t.replace('<>', '').replace(' + )', ')').replace('  ', ' ')
+
+
+def _subtuple(txt, path, tup):
+    """replace uses of the struct type `path<lifetimes..>` by the tuple text; with erased/anonymous lifetimes the tuple's are erased too"""
+    def r(m):
+        args = m.group(1) or ''
+        named = re.findall(r"'([A-Za-z_][A-Za-z0-9_]*)", args)
+        if not named or all(n == '_' for n in named):
+            return re.sub(r"&'[A-Za-z_][A-Za-z0-9_]* ", '&', re.sub(r"<'[A-Za-z_][A-Za-z0-9_]*>", "<'_>", tup)) if not named else re.sub(r"'[A-Za-z_][A-Za-z0-9_]*", "'_", tup)
+        return tup
+    return re.sub(r'(?<![A-Za-z0-9_:])%s(<[^<>]*>)?(?![A-Za-z0-9_])' % re.escape(path), r, txt)
 
 
 def _subpaths(txt, paths):
@@ -237,12 +361,13 @@ def renames_for(raw_std_unimock, raw_std_macros):
     if not os.path.exists(BASELINE):
         return Renames([]), ['no baseline inventory: names are taken as they are']
     base = json.load(open(BASELINE))
-    ren, log, structured, paths = [], [], [], []
+    ren, log, structured, paths, tups = [], [], [], [], []
     for crate, raw in (('unimock', raw_std_unimock), ('unimock_macros', raw_std_macros)):
         if raw is None or crate not in base:
             continue
         inv = inventory(json.loads(raw))
-        r, l, st, pa = detect(base[crate], inv, raw)
+        r, l, st, pa, tu = detect(base[crate], inv, raw)
+        tups += tu
         for x in r:
             if x not in ren:
                 ren.append(x)
@@ -251,6 +376,7 @@ def renames_for(raw_std_unimock, raw_std_macros):
         paths += pa
     rr = Renames(ren, structured)
     rr.paths = paths
+    rr.tuples = tups
     return rr, log
 
 
@@ -260,9 +386,10 @@ class Renames(list):
         list.__init__(self, textual)
         self.structured = list(structured)
         self.paths = []
+        self.tuples = []
 
     def __bool__(self):
-        return len(self) > 0 or bool(self.structured) or bool(self.paths)
+        return len(self) > 0 or bool(self.structured) or bool(self.paths) or bool(self.tuples)
 
 
 def apply_structured(j, structured):
@@ -293,6 +420,57 @@ def apply_structured(j, structured):
             for v in x:
                 walk(v)
     walk(j.get('fns'))
+
+
+def apply_tuples(j, tuples):
+    """structs accepted as named tuples: their aggregates become tuple aggregates, projections of their fields tuple projections"""
+    if not tuples:
+        return
+    by = {p: fs for p, fs, _ in tuples}
+
+    def walk(x):
+        if isinstance(x, dict):
+            ad = x.get('adt')
+            if ad in by:
+                if x.get('agg') == 'adt':
+                    x['agg'] = 'tuple'
+                    for k in ('adt', 'variant', 'fields'):
+                        x.pop(k, None)
+                elif 'f' in x and isinstance(x.get('name'), str):
+                    x['name'] = str(x['f'])
+                    x.pop('adt', None)
+                    x.pop('variant', None)
+            for v in x.values():
+                walk(v)
+        elif isinstance(x, list):
+            for v in x:
+                walk(v)
+    walk(j.get('fns'))
+    for p in by:
+        j.get('adts', {}).pop(p, None)
+
+    def retype(x):
+        # type texts that mention the struct now mention the tuple
+        if isinstance(x, dict):
+            for k, v in list(x.items()):
+                if isinstance(v, str):
+                    for p_, _, tup_ in tuples:
+                        if p_ in v:
+                            v = _subtuple(v, p_, tup_)
+                    x[k] = v
+                else:
+                    retype(v)
+        elif isinstance(x, list):
+            for i, v in enumerate(x):
+                if isinstance(v, str):
+                    for p_, _, tup_ in tuples:
+                        if p_ in v:
+                            v = _subtuple(v, p_, tup_)
+                    x[i] = v
+                else:
+                    retype(v)
+    retype(j.get('fns'))
+    retype(j.get('adts'))
 
 
 def apply(txt, ren):
